@@ -222,7 +222,7 @@ def check_c31(ctx):
     if not ctx.quick:
         spec_mutants(ctx, [("sort1", "MC_Gadgets_mutWrap.cfg"), ("sort1", "MC_Gadgets_mutParity.cfg")])
     groups = sorted(group_inputs(lines).items())
-    step = max(1, len(groups) // (400 if ctx.quick else 6000))
+    step = max(1, len(groups) // (400 if ctx.quick else 3000))
     sub = [v["honest"] for i, (k_, v) in enumerate(groups) if (i + ctx.seed) % step == 0 and v["honest"]]
     n = replay(ctx, 2, sub, attack_every=8 if ctx.quick else 4)
     if not ctx.violations and not ctx.replay:
